@@ -80,6 +80,66 @@ def large_conflict_terms(fb):
     return terms, site
 
 
+def fast_conflict_terms(fb, fi_):
+    """terms under which FastMicroStep::init stores `true` into the conflict matrix.  Form-independent: a leaf condition of
+    the per-pair loop is a term iff on every CFG path on which it evaluates to true the value stored into conflicts[j] is true
+    (exact product of the CFG with the bool locals: goto-label, flag and early-continue forms alike)."""
+    from .. import quant
+    stores = {}
+    for n in fi_.walk():
+        if n['k'] in ('CXXOperatorCallExpr', 'BinaryOperator') and n.get('op') == '=':
+            lhs = n['c'][1] if n['k'] == 'CXXOperatorCallExpr' else n['c'][0]
+            rhs = n['c'][2] if n['k'] == 'CXXOperatorCallExpr' else n['c'][1]
+            if any(x['k'] == 'MemberExpr' and x['ref'].get('name') == 'conflicts' for x in sub(lhs)) and any(
+                    a_['k'] in ('ForStmt', 'WhileStmt') for a_ in fi_.ancestors(n)):
+                stores[n['id']] = rhs
+    if not stores:
+        raise AnalysisBroken('FastMicroStep::init: no store into Transition::conflicts inside a loop found')
+    g = cfgm.CFG(fi_)
+    stores = {k: v for k, v in stores.items() if k in g.pos}
+    if not stores:
+        raise AnalysisBroken('FastMicroStep::init: the stores into Transition::conflicts are not CFG elements')
+    first = fi_.nodes[min(stores)]
+    loop = [a_ for a_ in fi_.ancestors(first) if a_['k'] in ('ForStmt', 'WhileStmt')][0]
+    inside = {x['id'] for x in sub(loop['c'][-1])}
+    loopcond = strip(loop['c'][2] if loop['k'] == 'ForStmt' and len(loop['c']) > 2 and loop['c'][2] is not None else loop['c'][0] if loop['k'] == 'WhileStmt' else None)
+    # locals derived from the ancestors relation (anc1 = _states[source1]->ancestors)
+    anc_lids = set()
+    for n in fi_.walk():
+        if n['k'] == 'DeclStmt':
+            for d in n.get('decls', []):
+                if 'init' in d and any(x['k'] == 'MemberExpr' and x['ref'].get('name') == 'ancestors' for x in sub(d['init'])):
+                    anc_lids.add(d['lid'])
+    leaves = []
+    for bid, blk in g.blocks.items():
+        c = blk.get('cond')
+        if c is None or c not in fi_.nodes or c not in inside:
+            continue
+        cn = strip(fi_.nodes[c])
+        names = [x['ref'].get('name') for x in sub(cn) if x['k'] == 'MemberExpr']
+        cls = None
+        if cn['k'] == 'BinaryOperator' and cn.get('op') == '==' and 'source' in names and 'first' not in names:
+            cls = 'same-source'
+        elif 'ancestors' in names or any(x['k'] == 'DeclRefExpr' and x.get('ref', {}).get('lid') in anc_lids for x in sub(cn)):
+            cls = 'source-ancestry'
+        elif 'second' in names and 'first' in names and cn['k'] == 'BinaryOperator' and cn.get('op') in ('>=', '<=', '>', '<', '&&'):
+            cls = 'exit-overlap'
+        if cls:
+            leaves.append((cn, cls))
+    terms = set()
+    for cn, cls in sorted(leaves, key=lambda x: (x[0]['loc'][1], x[0]['loc'][2])):
+        spec = quant.Spec(member=lambda n, cid=cn['id']: -1 if n['id'] == cid else 0,
+                          reset=lambda n, lc=(loopcond or {}).get('id'): lc is not None and n.get('id') == lc)
+        vals = quant.Quant(fi_, spec).values_at(stores)
+        allv = set().union(*vals.values())
+        if (True, True) in allv and (False, True) not in allv:
+            if cls == 'same-source':
+                terms.add(cls)
+            else:
+                terms.add('%s#%d' % (cls, 1 + sum(1 for t in terms if t.startswith(cls))))
+    return terms, len(stores)
+
+
 def fast_children(rep, fb, rule):
     fi2 = fb.fn('uscxml::FastMicroStep::init')
     sets = []
@@ -254,24 +314,7 @@ def run(rep, tier):
 
     # ---- R03.4 conflict definition: the fast engine's matrix uses the terms of Predicates.cpp::conflicts
     fi_ = fb.fn('uscxml::FastMicroStep::init')
-    conf_gotos = [n for n in fi_.walk() if n['k'] == 'GotoStmt' and n.get('label') == 'CONFLICTING_TRANS']
-    terms = set()
-    for gt in conf_gotos:
-        cond = None
-        for a in fi_.ancestors(gt):
-            if a['k'] == 'IfStmt':
-                cond = a['c'][0]
-                break
-        if cond is None:
-            continue
-        names = [x['ref']['name'] for x in sub(cond) if x['k'] == 'MemberExpr']
-        c0 = strip(cond)
-        if c0['k'] == 'BinaryOperator' and c0.get('op') == '==' and 'source' in names:
-            terms.add('same-source')
-        elif 'ancestors' in names or any(x['k'] == 'DeclRefExpr' and x['ref'].get('name', '').startswith('anc') for x in sub(cond)) or 'anc1' in fb.text(cond):
-            terms.add('source-ancestry#%d' % (1 + sum(1 for t in terms if t.startswith('source-ancestry'))))
-        elif 'first' in names and 'second' in names:
-            terms.add('exit-overlap#%d' % (1 + sum(1 for t in terms if t.startswith('exit-overlap'))))
+    terms, n_stores = fast_conflict_terms(fb, fi_)
     want_terms = {'same-source', 'source-ancestry#1', 'source-ancestry#2', 'exit-overlap#1', 'exit-overlap#2'}
     rep.check(terms == want_terms, 'R03.4', 'FastMicroStep::init|conflict terms', fi_.where(), 'the conflict matrix marks a pair as conflicting for %s; Predicates.cpp::conflicts: same source, source ancestry both ways, exit sets intersect; missing: %s' % (sorted(terms), sorted(want_terms - terms)))
 
